@@ -228,7 +228,10 @@ def gen_hunk(rng, max_lines=8, start=None):
 
 
 FILE_KINDS = ["modified", "added", "deleted", "renamed", "renamed_changed", "copied", "mode_only", "mode_changed",
-              "binary", "binary_added", "submodule", "empty_added", "binary_noindex", "submodule_added", "submodule_deleted"]
+              "binary", "binary_added", "submodule", "empty_added", "binary_noindex", "submodule_added", "submodule_deleted",
+              "renamed_binary_changed", "copied_binary_changed"]
+# further section shapes `gen_file` knows, not drawn by default (a check that wants them passes `kind=`)
+EXTRA_FILE_KINDS = ["binary_deleted", "binary_mode_changed"]
 
 
 def tabbed(name):
@@ -298,6 +301,20 @@ def gen_file(rng, kind=None, prefixes=("a/", "b/"), ending=None, paths=None):
         # section must not survive (delta shows the `Binary files` line itself)
         f["new"] = p2
         L += [f"diff --git {a}{p1} {b}{p2}", "index 1111111..2222222 100644", f"Binary files {a}{p1} and {b}{p2} differ"]
+    elif kind in ("renamed_binary_changed", "copied_binary_changed"):
+        # a binary file renamed (copied) AND modified (similarity < 100%): the rename lines name the two files (delta writes
+        # the header there), then an index line and a `Binary files` line instead of ---/+++ and hunks
+        f["new"] = p2
+        op = "rename" if kind == "renamed_binary_changed" else "copy"
+        L += [f"diff --git {a}{p1} {b}{p2}", "similarity index %d%%" % rng.choice([50, 81, 99]), f"{op} from {p1}", f"{op} to {p2}",
+              "index 1111111..2222222 100644", f"Binary files {a}{p1} and {b}{p2} differ"]
+    elif kind == "binary_deleted":
+        f["new"] = "/dev/null"
+        L += [f"diff --git {a}{p1} {b}{p1}", "deleted file mode 100644", "index 1111111..0000000", f"Binary files {a}{p1} and /dev/null differ"]
+    elif kind == "binary_mode_changed":
+        f["mode"] = rng.choice([("100644", "100755"), ("100755", "100644")])
+        L += [f"diff --git {a}{p1} {b}{p1}", f"old mode {f['mode'][0]}", f"new mode {f['mode'][1]}",
+              "index 1111111..2222222", f"Binary files {a}{p1} and {b}{p1} differ"]
     elif kind == "submodule":
         L += [f"diff --git {a}{p1} {b}{p1}", "index 1111111..2222222 160000", f"--- {a}{p1}", f"+++ {b}{p1}",
               "@@ -1 +1 @@", "-Subproject commit " + HASH, "+Subproject commit " + HASH[::-1]]
